@@ -109,7 +109,7 @@ def check(prop, cfg, tier, seed, replay=None):
         if replay:
             runs.append(("replay", replay, 0))
         else:
-            corp = os.path.join(C.VERIF, "corpus", prop, s["component"] + ".ops")
+            corp = os.path.join(C.VERIF, "corpus", cfg.get("corpus_from", {}).get(s["component"], prop), s["component"] + ".ops")
             if os.path.exists(corp):
                 runs.append(("corpus", corp, 0))
             runs.append(("gen", None, s["n"][tier]))
@@ -127,6 +127,8 @@ def check(prop, cfg, tier, seed, replay=None):
                                    "component": s["component"], "op": mm["op"], "model_op": mm["model_op"],
                                    "impl": mm["impl"][:2000], "model": mm["model"][:2000]})
             for f in r["oracle"]:
+                if cfg.get("oracle_filter_re") and not re.search(cfg["oracle_filter_re"], f["what"]):
+                    continue   # an oracle clause that belongs to another property's scope
                 ops = [f["op"]]
                 if s.get("reset_re"):
                     ops = C.prefix_ops(os.path.join(r["dir"], "ops.txt"), f["line"], s["reset_re"])
@@ -252,6 +254,8 @@ def search(prop, cfg, binaries, seed, known, budget_s):
             except Exception:  # noqa
                 continue
             for f in r.get("oracle", []):
+                if cfg.get("oracle_filter_re") and not re.search(cfg["oracle_filter_re"], f["what"]):
+                    continue
                 ff = {"component": s["component"], "op": f["op"], "impl": f["impl"][:2000], "what": f["what"]}
                 if s.get("reset_re"):
                     ff["ops"] = C.prefix_ops(os.path.join(r["dir"], "ops.txt"), f["line"], s["reset_re"])
